@@ -26,6 +26,12 @@ Inv == Acyclic(ents)
 \* ACTION_CONSTRAINT is evaluated per generated successor; to print each labelled
 \* transition exactly once we print from an invariant on the pre-state instead.
 WirePre == {<<u, ents[u].par, ents[u].v>> : u \in DOMAIN ents}
+\* states only: the harness side walks the operation product itself (seeded sample per state)
+DumpStates == PrintT("CASE " \o ToJson([pre |-> WirePre]))
+\* only removals and single replacements (the operations that can strand an ancestor)
+DumpRU ==
+  /\ \A e \in Entries : PrintT("CASE " \o ToJson([pre |-> WirePre, op |-> "upsert", arg |-> <<e>>]))
+  /\ \A s \in SUBSET Uids : PrintT("CASE " \o ToJson([pre |-> WirePre, op |-> "remove", arg |-> s]))
 DumpAll ==
   /\ \A b \in Batches : PrintT("CASE " \o ToJson([pre |-> WirePre, op |-> "add", arg |-> b]))
   /\ \A b \in Batches : PrintT("CASE " \o ToJson([pre |-> WirePre, op |-> "upsert", arg |-> b]))
